@@ -21,7 +21,7 @@ import (
 
 // FrameSpec describes one element of an inbound byte stream.
 type FrameSpec struct {
-	Class string // valid | fill | oversize | garbage | short | tiny | badprefix | cutstream
+	Class string // valid | fill | oversize | garbage | short | tiny | badprefix | cutstream | cutoversize | hugeprefix
 	Msg   refwire.Msg
 	K     int    // oversize: excess over msize; short: bytes cut from the body; tiny: prefix value 4..6; badprefix: 0..3; cutstream: bytes kept
 	Body  harn.B // garbage: the body bytes
@@ -88,6 +88,32 @@ func (f *FrameSpec) bytesOf(msize int) (raw []byte, final bool) {
 		p := make([]byte, 4)
 		binary.LittleEndian.PutUint32(p, uint32(f.K))
 		return append(p, 0x75, 0, 0, 0), true
+	case "cutoversize":
+		// an oversize frame (msize + 5 + len(Body) claimed) of which only the first K bytes exist:
+		// the stream ends inside the part that must be discarded (or before it)
+		total := msize + 5 + len(f.Body)
+		body := make([]byte, total-4)
+		copy(body, refwire.Encode(&f.Msg))
+		full := refwire.FrameRaw(body)
+		keep := f.K
+		if keep >= len(full) {
+			keep = len(full) - 1
+		}
+		if keep < 1 {
+			keep = 1
+		}
+		return full[:keep], true
+	case "hugeprefix":
+		// a length prefix of 2^31 or more (or just below), followed by bytes that look like
+		// well-formed frames: they are all part of the one enormous frame, which the
+		// stream cannot complete
+		p := make([]byte, 4)
+		binary.LittleEndian.PutUint32(p, hugePrefixes[f.K%len(hugePrefixes)])
+		one := refwire.Frame(&f.Msg)
+		for i := 0; i < 1+len(f.Body)%3; i++ {
+			p = append(p, one...)
+		}
+		return p, true
 	case "cutstream":
 		full := refwire.Frame(&f.Msg)
 		keep := f.K
@@ -101,6 +127,8 @@ func (f *FrameSpec) bytesOf(msize int) (raw []byte, final bool) {
 	}
 	panic("bad class " + f.Class)
 }
+
+var hugePrefixes = []uint32{0x80000000, 0x80000001, 0x80000017, 0xFFFFFFFF, 0xFFFFFFFB, 0x7FFFFFFF, 0xC0000000, 0x8000FFFF, 0x00010000 + 0x7FFF0000}
 
 type expect struct {
 	msg      *refwire.Msg // non-nil: this message must be delivered
@@ -132,7 +160,7 @@ func expectFor(raw []byte, msize int, final bool) expect {
 func genFrame(t *rapid.T, msize int, last bool) FrameSpec {
 	classes := []string{"valid", "valid", "valid", "fill", "oversize", "garbage", "short", "short", "tiny"}
 	if last {
-		classes = append(classes, "badprefix", "badprefix", "cutstream", "cutstream")
+		classes = append(classes, "badprefix", "badprefix", "cutstream", "cutstream", "cutoversize", "hugeprefix")
 	}
 	f := FrameSpec{Class: rapid.SampledFrom(classes).Draw(t, "class")}
 	small := func() refwire.Msg {
@@ -180,6 +208,16 @@ func genFrame(t *rapid.T, msize int, last bool) FrameSpec {
 	case "cutstream":
 		f.Msg = small()
 		f.K = rapid.IntRange(1, 4+len(refwire.Encode(&f.Msg))-1).Draw(t, "keep")
+	case "cutoversize":
+		f.Msg = small()
+		extra := rapid.IntRange(0, 60).Draw(t, "extra")
+		f.Body = make(harn.B, extra)
+		total := msize + 5 + extra
+		f.K = rapid.OneOf(rapid.IntRange(msize, total-1), rapid.IntRange(1, total-1), rapid.SampledFrom([]int{total - 1, total - 2, msize + 1, msize + 4})).Draw(t, "keep")
+	case "hugeprefix":
+		f.Msg = small()
+		f.K = rapid.IntRange(0, len(hugePrefixes)-1).Draw(t, "which")
+		f.Body = make(harn.B, rapid.IntRange(0, 2).Draw(t, "reps"))
 	}
 	return f
 }
@@ -400,6 +438,12 @@ func RunRead(c ReadCase) harn.Result {
 		res.Classes = append(res.Classes, "setmsize_between_reads")
 	}
 	for i, e := range exps {
+		if cl := c.Frames[i].Class; (cl == "cutoversize" || cl == "hugeprefix") && outs[i].err != nil && outs[i].overflow > 0 && len(raws[i]) >= 4 {
+			if claimed := int64(binary.LittleEndian.Uint32(raws[i])) - int64(c.msizeAt(i)); int64(outs[i].overflow) != claimed {
+				return harn.Fail("frame %d (%s: prefix claims %d bytes, msize %d, the stream ends after %d of them): reported as an overflow of %d, which is not the excess (%d) of the frame",
+					i, cl, binary.LittleEndian.Uint32(raws[i]), c.msizeAt(i), len(raws[i]), outs[i].overflow, claimed)
+			}
+		}
 		if !matches(outs[i], e) {
 			want := "an error"
 			if e.msg != nil {
